@@ -730,6 +730,9 @@ func FunctionMap() map[string]physical.FunctionDetails {
 					OutputType:    octosql.String,
 					Strict:        true,
 					Function: func(values []octosql.Value) (octosql.Value, error) {
+						if values[1].Int < 0 {
+							return octosql.ZeroValue, fmt.Errorf("substr start index must not be negative, got %d", values[1].Int)
+						}
 						if int64(len(values[0].Str)) <= values[1].Int {
 							return octosql.NewString(""), nil
 						}
@@ -741,14 +744,20 @@ func FunctionMap() map[string]physical.FunctionDetails {
 					OutputType:    octosql.String,
 					Strict:        true,
 					Function: func(values []octosql.Value) (octosql.Value, error) {
+						if values[1].Int < 0 {
+							return octosql.ZeroValue, fmt.Errorf("substr start index must not be negative, got %d", values[1].Int)
+						}
+						if values[2].Int < 0 {
+							return octosql.ZeroValue, fmt.Errorf("substr length must not be negative, got %d", values[2].Int)
+						}
 						if int64(len(values[0].Str)) <= values[1].Int {
 							return octosql.NewString(""), nil
 						}
-						end := values[1].Int + values[2].Int
-						if end > int64(len(values[0].Str)) {
-							end = int64(len(values[0].Str))
+						rest := values[0].Str[values[1].Int:]
+						if int64(len(rest)) <= values[2].Int {
+							return octosql.NewString(rest), nil
 						}
-						return octosql.NewString(values[0].Str[values[1].Int:end]), nil
+						return octosql.NewString(rest[:values[2].Int]), nil
 					},
 				},
 			},
